@@ -117,7 +117,7 @@ def _replay_task(task):
         segs.append(cur)
         obs = []
         for ops in segs:
-            p = py_in(scratch, WORKER, json.dumps({"ops": ops, "inputs": inputs, "valid_sig": valid_sig, "fault_files": faults}),
+            p = py_in(scratch, WORKER, json.dumps({"ops": ops, "inputs": inputs, "valid_sig": valid_sig, "fault_files": faults, "probe_flags": [{}, {"silent": False}][idx % 2]}),
                       is_file=True)
             if p.returncode != 0:
                 obs.append({"build": "process-died", "stderr": p.stderr[-600:]})
